@@ -23,6 +23,7 @@ package compile
 import (
 	"errors"
 	"fmt"
+	"math"
 
 	"go.uber.org/thriftrw/ast"
 )
@@ -84,9 +85,30 @@ func (c ConstantBool) Link(scope Scope, t TypeSpec) (ConstantValue, error) {
 	return c, nil
 }
 
+// integerRange reports the range of integers representable by the given
+// type, if it's an integer-valued type.
+func integerRange(t TypeSpec) (min, max int64, ok bool) {
+	switch t.(type) {
+	case *I8Spec:
+		return math.MinInt8, math.MaxInt8, true
+	case *I16Spec:
+		return math.MinInt16, math.MaxInt16, true
+	case *I32Spec, *EnumSpec:
+		return math.MinInt32, math.MaxInt32, true
+	}
+	return 0, 0, false
+}
+
 // Link for ConstantInt.
 func (c ConstantInt) Link(scope Scope, t TypeSpec) (ConstantValue, error) {
 	rt := RootTypeSpec(t)
+	if min, max, ok := integerRange(rt); ok && (int64(c) < min || int64(c) > max) {
+		return nil, constantValueCastError{
+			Value:  c,
+			Type:   t,
+			Reason: fmt.Errorf("the value must be in the range [%v, %v]", min, max),
+		}
+	}
 	switch spec := rt.(type) {
 	case *I8Spec, *I16Spec, *I32Spec, *I64Spec:
 		// TODO bounds checks?
